@@ -126,7 +126,15 @@ func c12Batch(c *core.Ctx, cases []asmCase, r *core.Rand) error {
 			return fmt.Errorf("no builder for %s", cs.proto)
 		}
 		rr := r.Fork()
-		io, final := core.RunOps(nb, cs.ops, func(v core.Val) (datamodel.Node, error) { return core.BuildBasic(v, rr) })
+		// the node of an AN call is a basicnode node or (one in three) the same data as a node of ANOTHER implementation,
+		// for which no own-type shortcut applies
+		io, final := core.RunOps(nb, cs.ops, func(v core.Val) (datamodel.Node, error) {
+			n, err := core.BuildBasic(v, rr)
+			if err == nil && rr.Chance(1, 3) {
+				n = core.Foreign(n)
+			}
+			return n, err
+		})
 		impl := strings.Join(io, " ") + " | " + final
 		injected := 0
 		for _, op := range cs.ops {
@@ -288,7 +296,13 @@ func c12Typed(c *core.Ctx, r *core.Rand, n int) error {
 			return err
 		}
 		rr := r.Fork()
-		io, final := core.RunOps(nb, ops, func(x core.Val) (datamodel.Node, error) { return core.BuildBasic(x, rr) })
+		io, final := core.RunOps(nb, ops, func(x core.Val) (datamodel.Node, error) {
+			n, err := core.BuildBasic(x, rr)
+			if err == nil && rr.Chance(1, 3) {
+				n = core.Foreign(n)
+			}
+			return n, err
+		})
 		impl := strings.Join(io, " ") + " | " + final
 		line := "c12.typed " + sc.Eng.Name() + " " + t.Tokens() + " OPS " + core.OpsLine(ops)
 		injected := 0
